@@ -308,3 +308,40 @@ Proof.
       rewrite ?F, ?S, ?T, ?ctor_zero_ok_lit, ?zero_lit_val_scalar; reflexivity. }
   destruct p as [id|]; cbn [xst_of]; exact X.
 Qed.
+
+(* ================================================================== Get *)
+Lemma get_body md h own ob f fd : recv_ok md ob -> nth_error (m_fields md) f = Some fd ->
+  eval_get (m_fields md) h (XObj own ob) (canon_get_body f fd) = Some (h, get_field ob own f fd).
+Proof.
+  intros R F. destruct (recv_cell _ _ _ _ R F) as [c [C Fit]].
+  unfold canon_get_body, get_field, cell_fitsb in *.
+  destruct (f_shape fd) as [|pk|o|kk] eqn:S.
+  - destruct (f_ty fd) as [k|m] eqn:T; destruct c; try discriminate.
+    + destruct k; cbn [is_enum eval_get]; rewrite F, C, S, T; reflexivity.
+    + cbn [eval_get]. rewrite F, C, S, T. reflexivity.
+  - destruct (f_ty fd) eqn:T; destruct c; try discriminate; cbn [eval_get]; rewrite F, C, S, ?T; reflexivity.
+  - destruct (f_ty fd) as [k|m] eqn:T.
+    + cbn [eval_get]. rewrite (member_in_self _ _ _ _ F S). unfold slot_at.
+      destruct (nth o (o_oneofs ob) None) as [[f' e]|]; [destruct (Nat.eqb f' f)|];
+        destruct k; cbn [is_enum eval_oneval option_map ctor_of zero_lit]; rewrite ?T; reflexivity.
+    + cbn [eval_get]. rewrite (member_in_self _ _ _ _ F S). unfold slot_at.
+      destruct (nth o (o_oneofs ob) None) as [[f' e]|]; [destruct (Nat.eqb f' f)|];
+        cbn [eval_oneval option_map]; rewrite ?T; reflexivity.
+  - destruct (f_ty fd) eqn:T; destruct c; try discriminate; cbn [eval_get]; rewrite F, C, S, ?T; reflexivity.
+Qed.
+
+Lemma get_prog_correct : get_prog_stmt.
+Proof.
+  intros sch h r f Hwf Hok. destruct r as [|mid p| | | | | | | | | |]; try exact I.
+  unfold run_get, run_meth, canon_get, rp_fields. cbn [rm_guard rm_cases step].
+  rewrite rp_assoc_canon, field_of_nth.
+  destruct (get_msg sch mid) as [md|] eqn:G.
+  2:{ rewrite (fields_of_none _ _ G). destruct f; destruct p; reflexivity. }
+  rewrite (fields_of_md _ _ _ G).
+  destruct (nth_error (m_fields md) f) as [fd|] eqn:F; cbn [option_map].
+  2:{ destruct p; reflexivity. }
+  destruct p as [id|]; cbn [xst_of].
+  - destruct (recv_obj sch h mid (Some id)) as [ob|] eqn:R; [|reflexivity].
+    apply get_body; [exact (recv_ok_of _ _ _ _ _ _ Hok R G)|exact F].
+  - cbn [recv_obj]. apply get_body; [exact (recv_ok_of sch h mid None _ md Hok eq_refl G)|exact F].
+Qed.
